@@ -110,13 +110,14 @@ def random_var_states(rng, sx):
 
 ORD_CONSTS = [2, 4, 6]  # the integers 1, 2, 3
 RANGE_PAIRS = [(2, 4), (2, 6), (4, 4), (6, 2)]
-SETS = [(), (2,), (4,), (2, 4), (4, 6), (2, 4, 6)]
+SETS = [(), (2,), (4,), (2, 4), (4, 6), (2, 4, 6), (0,), (0, 2)]  # (0,), (0, 2): the falsy constant 0 as only / as one member
 
 
 def scalar_atoms():
     out = ["tt", "ff"]
     for k in ("eq", "ne", "ge", "gt", "le", "lt"):
         out += [(k, str(c)) for c in ORD_CONSTS]
+    out += [("eq", "0"), ("ne", "0")]  # a falsy constant
     for k in ("gele", "gelt", "gtle", "gtlt"):
         out += [(k, str(a), str(b)) for a, b in RANGE_PAIRS]
     for k in ("in", "notin"):
